@@ -168,16 +168,52 @@ func treeAlphabet(r *Rng, t *Tree, extra []File) []Op {
 		Op{Kind: "string", Name: "rowpage", Data: mk([]string{"r"}, Val{T: "named", I: 1})},
 		Op{Kind: "evalstr", Src: "{{ r.num }}", Data: mk([]string{"r"}, Val{T: "named", I: 2})},
 	)
+	// the whole built-in function table, several calls of each function per render
+	ops = append(ops, Op{Kind: "string", Name: "allfuncs", Data: BuiltinSweepData()}, Op{Kind: "evalstr", Src: BuiltinSweepSrc, Data: BuiltinSweepData()})
+	// chains of 1..8 @elseif branches with and without @else, every branch reachable through v
+	for _, v := range []int{0, 3, 5, 9} {
+		ops = append(ops, Op{Kind: "string", Name: "branchy", Data: mk([]string{"v"}, VInt(v))})
+	}
+	ops = append(ops, Op{Kind: "response", Name: "branchy", Data: mk([]string{"v"}, VInt(4))})
+	for _, z := range [][2]int{{1, 1}, {0, 1}, {1, 0}} {
+		ops = append(ops, Op{Kind: "string", Name: "slotfail", Data: mk([]string{"zf", "zg"}, VInt(z[0]), VInt(z[1]))})
+	}
+	ops = append(ops, Op{Kind: "response", Name: "slotfail", Data: mk([]string{"zf", "zg"}, VInt(0), VInt(1))})
 	return ops
 }
+
+// branchySrc: @if chains with every number of @elseif branches from 0 to 8, with and without @else.
+var branchySrc = func() string {
+	var b strings.Builder
+	for n := 0; n <= 8; n++ {
+		for _, els := range []bool{true, false} {
+			fmt.Fprintf(&b, "<p>n%d:@if(v == 100)[if]", n)
+			for k := 1; k <= n; k++ {
+				fmt.Fprintf(&b, "@elseif(v == %d)[e%d]", k, k)
+			}
+			if els {
+				b.WriteString("@else[else]")
+			}
+			b.WriteString("@end</p>\n")
+		}
+	}
+	return b.String()
+}()
+
+// c16Force, when set, overrides the drawn configuration (the -race companion walks through the
+// error page x debug combinations systematically).
+var c16Force func(*TreeOpts)
 
 func genC16Tree(r *Rng) (*Scenario, *Tree, []Op) {
 	o := TreeOpts{ErrPage: Pick(r, []string{"", "", "valid", "failing", "missing"}), Debug: r.Chance(50),
 		Funcs: map[string][]string{"str": {"shout"}, "bool": {"flip"}, "arr": {"rev"}}}
+	if c16Force != nil {
+		c16Force(&o)
+	}
 	t := GenTree(r, o)
 	sc := &Scenario{Prop: "C16", Cwd: t.Cwd, Files: t.Clean()}
 	// a page that always fails late, after producing output
-	g := &Gen{R: r, Prefix: "PF"}
+	g := &Gen{R: r, Prefix: "PF", AllFuncs: true}
 	g.GenData()
 	late := g.Stmts(2, 1) + Pick(r, []string{"{{ undefinedLate }}", "{{ n1 / z0 }}", `{{ 1 + "a" }}`}) + "<p>PF_tail</p>"
 	if r.Chance(40) {
@@ -202,6 +238,11 @@ func genC16Tree(r *Rng) (*Scenario, *Tree, []Op) {
 		File{Path: t.path("reader"), Data: "<u>{{ title }}{{ count }}</u>", Role: "page"},
 		File{Path: t.path("floaty"), Data: "@for(f = 2.0; f > 0.0; f--)[{{ f }}]@end{{ base = 9.5 }}{{ base-- }}|{{ n = 3 }}{{ n++ }}|{{ g = 1.5 }}{{ g++ }}", Role: "page"},
 		File{Path: t.path("revpage"), Data: "<p>{{ xs.rev() }}</p><p>{{ xs }}</p>", Role: "page"},
+		File{Path: t.path("allfuncs"), Data: BuiltinSweepSrc, Role: "page"},
+		File{Path: t.path("branchy"), Data: branchySrc, Role: "page"},
+		File{Path: t.path("latepage"), Data: "<p>{{ s0.whisper(1) }}</p>", Role: "page"},
+		// one component used three times: without slots, with a slot whose body may fail, without again
+		File{Path: t.path("slotfail"), Data: "@component(\"components/card\", {title: \"plain\", n: 0})\n<hr>\n@component(\"components/card\", {title: \"filled\", n: 1})\n@slot<i>{{ 10 / zf }}</i>@end\n@slot(\"foot\")<b>{{ 20 / zg }}</b>@end\n@end\n<hr>\n@component(\"components/card\", {title: \"last\", n: 2})\n@slot(\"foot\")<u>tail</u>@end\n@end\n", Role: "page"},
 	)
 	// variants of the first page that fail (or not, depending on the data value zf) at a seeded
 	// statement boundary — top level, inside if/else, loops, inserts, component slots
@@ -272,14 +313,38 @@ type c16Result struct {
 	setupBad bool
 }
 
+// c16Keys returns, per position of a history, the key of that operation's baseline. Registering
+// a custom function is configuration, not a call "made before" in the property's sense: the
+// baseline of an operation is the operation issued first after a fresh reset + setup + the
+// registrations that precede it in the history (and nothing else of the history).
+func c16Keys(ops []Op) ([]string, [][]Op) {
+	keys := make([]string, len(ops))
+	pre := make([][]Op, len(ops))
+	var regs []Op
+	suffix := ""
+	for i, op := range ops {
+		keys[i] = opKey(op) + suffix
+		pre[i] = regs
+		if op.Kind == "register" {
+			regs = append(append([]Op{}, regs...), op)
+			suffix += "|" + opKey(op)
+		}
+	}
+	return keys, pre
+}
+
 // runHistory executes setup + ops and compares each op with its fresh-state baseline.
 func c16RunHistory(sc *Scenario, ops []Op, base map[string]Obs, acc *Acc) c16Result {
-	for _, op := range ops {
-		k := opKey(op)
+	keys, pre := c16Keys(ops)
+	for i, op := range ops {
+		k := keys[i]
 		if _, ok := base[k]; !ok {
 			w, ok := setupWorld(sc)
 			if !ok {
 				return c16Result{idx: -1, setupBad: true}
+			}
+			for _, reg := range pre[i] {
+				w.RunOp(reg, Budget)
 			}
 			base[k] = w.RunOp(op, Budget)
 			if acc != nil {
@@ -310,7 +375,7 @@ func c16RunHistory(sc *Scenario, ops []Op, base map[string]Obs, acc *Acc) c16Res
 			exp.Mut = ""
 			return c16Result{idx: i, got: o, exp: exp}
 		}
-		if exp := base[opKey(op)]; o.Key() != exp.Key() {
+		if exp := base[keys[i]]; o.Key() != exp.Key() {
 			return c16Result{idx: i, got: o, exp: exp}
 		}
 	}
@@ -346,15 +411,16 @@ func (p c16) violation(sc *Scenario, ops []Op, base map[string]Obs, res c16Resul
 		}
 	}
 	aff := hist[len(hist)-1]
+	hkeys, _ := c16Keys(hist)
 	sig := ""
 	if len(hist) == 1 {
-		sig = "self:" + opClass(aff, base[opKey(aff)])
+		sig = "self:" + opClass(aff, base[hkeys[0]])
 	} else {
 		var pre []string
-		for _, o := range hist[:len(hist)-1] {
-			pre = append(pre, opClass(o, base[opKey(o)]))
+		for i, o := range hist[:len(hist)-1] {
+			pre = append(pre, opClass(o, base[hkeys[i]]))
 		}
-		sig = "after[" + strings.Join(rle(pre), ",") + "] affected[" + opClass(aff, base[opKey(aff)]) + "] field:" + diffFieldFull(res.exp, res.got)
+		sig = "after[" + strings.Join(rle(pre), ",") + "] affected[" + opClass(aff, base[hkeys[len(hist)-1]]) + "] field:" + diffFieldFull(res.exp, res.got)
 	}
 	s := sc.Clone()
 	s.Ops = hist
@@ -396,8 +462,9 @@ func nontrivialHistory(ops []Op, base map[string]Obs) bool {
 		return false
 	}
 	seenStr := false
-	for _, o := range ops {
-		if base[opKey(o)].Kind != "ok" {
+	keys, _ := c16Keys(ops)
+	for i, o := range ops {
+		if base[keys[i]].Kind != "ok" {
 			return true
 		}
 		if o.Kind == "evalstr" || o.Kind == "evalfile" {
@@ -487,6 +554,33 @@ func (p c16) Run(seed uint64, run int, tier string, acc *Acc) *Violation {
 		for i := 0; i < 40; i++ {
 			ops = append(ops, a, b)
 		}
+	}
+	if r.Chance(15) {
+		// a custom function is registered in the middle of the history: calls of it before that
+		// (they fail: no such function) must not influence calls after it
+		late := Op{Kind: "register", Recv: "str", Name: "whisper", Fn: 3}
+		use := []Op{
+			{Kind: "evalstr", Src: `<i>{{ "Hey".whisper(2) }}</i>`, Data: nil},
+			{Kind: "string", Name: "latepage", Data: t.Data},
+			{Kind: "response", Name: "latepage", Data: t.Data},
+			{Kind: "evalfile", Name: t.path("latepage"), Data: t.Data},
+		}
+		var h []Op
+		for i := 0; i < r.Range(1, 4); i++ {
+			h = append(h, Pick(r, alpha))
+			if r.Chance(70) {
+				h = append(h, Pick(r, use))
+			}
+		}
+		h = append(h, late)
+		for i := 0; i < r.Range(1, 4); i++ {
+			h = append(h, Pick(r, use))
+			if r.Chance(40) {
+				h = append(h, Pick(r, alpha))
+			}
+		}
+		ops = append(h, ops...)
+		acc.Probe("histories-with-a-registration-in-the-middle", 1)
 	}
 	ops = append(ops, final...)
 	if run%97 == 1 {
